@@ -4,5 +4,53 @@
 
 package commitment
 
+// C04: reveal value = multihash of the canonical JWK; commitment = multihash of
+// the hash of the canonical JWK; commitment-from-reveal re-hashes the digest.
+//
+//@ spec func hashFor2(code uint) crypto.Hash = ite(code == 18, crypto.SHA256, crypto.SHA512)
+//@ spec func reveal(c string, code uint) string = b64(mhEnc(digest(hashFor2(code), c), uint64(code)))
+//@ spec func commit(c string, code uint) string = b64(mhEnc(digest(hashFor2(code), digest(hashFor2(code), c)), uint64(code)))
+
+//@ func GetRevealValue(jwk, multihashCode) (ret, err)
+//@   pure
+//@   let cb, cerr := canonicalizer.MarshalCanonical(jwk)
+//@   ensures [iff] (err == nil) == (cerr == nil && (multihashCode == 18 || multihashCode == 19) && digestOK(hashFor2(multihashCode)) &&
+//@        mhEncOK(digest(hashFor2(multihashCode), string(cb)), uint64(multihashCode)))
+//@   ensures [value] err == nil ==> ret == reveal(string(cb), multihashCode)
+
 //@ func GetCommitment(jwk, multihashCode) (ret, err)
 //@   pure
+//@   let cb, cerr := canonicalizer.MarshalCanonical(jwk)
+//@   ensures [iff] (err == nil) == (cerr == nil && (multihashCode == 18 || multihashCode == 19) && digestOK(hashFor2(multihashCode)) &&
+//@        mhEncOK(digest(hashFor2(multihashCode), digest(hashFor2(multihashCode), string(cb))), uint64(multihashCode)))
+//@   ensures [value] err == nil ==> ret == commit(string(cb), multihashCode)
+
+//@ func GetCommitmentFromRevealValue(rv) (ret, err)
+//@   pure
+//@   let code := uint(mhCode(unb64(rv)))
+//@   let dg := mhDigest(unb64(rv))
+//@   ensures [iff] (err == nil) == (b64ok(rv) && mhDecOK(unb64(rv)) && (code == 18 || code == 19) && digestOK(hashFor2(code)) &&
+//@        mhEncOK(digest(hashFor2(code), dg), uint64(code)))
+//@   ensures [value] err == nil ==> ret == b64(mhEnc(digest(hashFor2(code), dg), uint64(code)))
+
+// the link between consecutive operations: the commitment derived from a key's
+// reveal value is that key's commitment (both supported algorithms)
+//@ lemma C04_link(k *jws.JWK, c uint)
+//@   requires c == 18 || c == 19
+//@   let rv := GetRevealValue(k, c)
+//@   let cm := GetCommitment(k, c)
+//@   let fr := GetCommitmentFromRevealValue(rv.ret)
+//@   requires rv.err == nil && cm.err == nil
+//@   ensures [link] fr.err == nil && fr.ret == cm.ret
+
+// keys with different canonical forms have different commitments (given injectivity of the encodings and
+// collision resistance, stated as hypotheses of the lemma, not proved)
+//@ lemma C04_distinct(k1 *jws.JWK, k2 *jws.JWK, c uint)
+//@   requires c == 18 || c == 19
+//@   let c1 := GetCommitment(k1, c)
+//@   let c2 := GetCommitment(k2, c)
+//@   let b1 := string(canonicalizer.MarshalCanonical(k1).ret)
+//@   let b2 := string(canonicalizer.MarshalCanonical(k2).ret)
+//@   requires c1.err == nil && c2.err == nil
+//@   requires commit(b1, c) == commit(b2, c) ==> b1 == b2
+//@   ensures [distinct] b1 != b2 ==> c1.ret != c2.ret
